@@ -222,6 +222,30 @@ def run(ctx):
                 db.rel,
                 cls.lineno,
             )
+    # ---- C33.6 what a query hands out after build() comes from the built query -------------------------
+    # Filters (status filters among them) are applied lazily by build().  A method that builds and then derives its result from the *unbuilt*
+    # self._jobs / self._executions ... returns unfiltered rows: filter_job_statuses(["FAILED"]).limit(10) yields jobs of every status.
+    r6 = ctx.rule("C33.6", "methods of CallGraphQuery that call build() do not read the unbuilt subqueries afterwards", floor=3)
+    SUBQ = {"_executions", "_jobs", "_call_nodes", "_tasks", "_values"}
+    qcls = qm.cls("CallGraphQuery")
+    n6 = 0
+    for st in qcls.body:
+        if not isinstance(st, FuncNode) or st.name in ("build", "clone", "__init__"):
+            continue
+        if not any(call_name(c) == "self.build" for c in calls_in(st)):
+            continue
+        n6 += 1
+        raw = [n for n in ast.walk(st) if isinstance(n, ast.Attribute) and n.attr in SUBQ and isinstance(n.value, ast.Name) and n.value.id == "self" and isinstance(n.ctx, ast.Load)]
+        r6.check(
+            not raw,
+            f"{qm.rel}:CallGraphQuery.{st.name}:uses-built-subqueries",
+            f"CallGraphQuery.{st.name} calls self.build() but then reads `self.{raw[0].attr if raw else ''}` (line {raw[0].lineno if raw else 0}), the subquery *before* joins and filters were applied: "
+            "the status filter is dropped, so e.g. filter_job_statuses(['FAILED']).limit(10) returns jobs whose displayed status is DONE or CACHED",
+            qm.rel,
+            raw[0].lineno if raw else st.lineno,
+        )
+    if n6 < 3:
+        raise AnalysisError(f"only {n6} CallGraphQuery methods calling build() found", "CallGraphQuery")
 
 
 def _console_rules(ctx, repo, display, ERR, err_q, JOB_STATUSES):
